@@ -201,7 +201,10 @@ func (w *World) rec(t int, ev string, op Op, res Res) Rec {
 }
 
 // boundaryFlags names the size boundaries the container of handle name sits on right now.
+var lastInnerCounts []int // child counts of the inner (non-root) index slabs seen by the last boundaryFlags call
+
 func (w *World) boundaryFlags(name string) ([]string, int) {
+	lastInnerCounts = lastInnerCounts[:0]
 	h, ok := w.H[name]
 	if !ok {
 		return []string{}, 0
@@ -230,6 +233,22 @@ func (w *World) boundaryFlags(name string) ([]string, int) {
 		}
 	}
 	walk(root, true)
+	// two adjacent inner (non-root) index slabs that both hold the minimum number of children: the next child lost by either of
+	// them decides between borrowing from and merging with a sibling that has nothing to spare
+	var inner func(n *Node)
+	inner = func(n *Node) {
+		for i, c := range n.C {
+			if len(c.C) > 0 {
+				lastInnerCounts = append(lastInnerCounts, len(c.C))
+				atMin := func(x *Node) bool { return len(x.C) > 0 && x.Sz-per < int(w.Th.Min) }
+				if i+1 < len(n.C) && atMin(c) && atMin(n.C[i+1]) {
+					seen["innermin2"] = true
+				}
+				inner(c)
+			}
+		}
+	}
+	inner(root)
 	out := []string{}
 	for k := range seen {
 		out = append(out, k)
